@@ -1010,6 +1010,9 @@ class TypeAnalyser(SyntheticTypeVisitor[Type], TypeAnalyzerPluginInterface):
         if isinstance(sym.node, Var):
             typ = get_proper_type(sym.node.type)
             if isinstance(typ, AnyType):
+                # Record a dependency on the variable (like on a type alias): if it stops being
+                # an Any-typed variable, the annotation has to be analysed again.
+                self.aliases_used.add(sym.node.fullname)
                 return AnyType(
                     TypeOfAny.from_unimported_type, missing_import_name=typ.missing_import_name
                 )
